@@ -67,6 +67,16 @@ Example C08_ex_half_of_odd_window :
   min_signed_per_window {| p_unstaking_time := 0; p_max_validators := 1; p_min_stake := 0; p_max_evidence_age := 0;
      p_window := 7; p_min_signed := 500000000000000000; p_downtime_jail := 0; p_slash_ds := 0; p_slash_dt := 0 |} = 4.
 Proof. split; vm_compute; reflexivity. Qed.
+(* the stored key of a window position: every position of the int64 range has its own key, and validators (addresses of one
+   length) never share one - what the counter-equals-stored-misses theorem silently relies on, compared with
+   GetValMissedBlockKey by the KM stream *)
+Theorem C08_window_positions_have_their_own_keys a i j : 0 <= i < 256 ^ 8 -> 0 <= j < 256 ^ 8 ->
+  missed_key a i = missed_key a j -> i = j.
+Proof. exact (missed_key_inj a i j). Qed.
+Theorem C08_validators_never_share_a_position_key a b i j : length a = length b -> 0 <= i < 256 ^ 8 -> 0 <= j < 256 ^ 8 ->
+  missed_key a i = missed_key b j -> a = b /\ i = j.
+Proof. exact (missed_key_inj2 a b i j). Qed.
+Print Assumptions C08_validators_never_share_a_position_key.
 Print Assumptions C08_threshold_partial.
 Print Assumptions C08_ring_buffer_is_sliding_window.
 Print Assumptions C08_one_vote_is_one_ring_step.
